@@ -2,7 +2,7 @@
 import json, os, time, sys, hashlib
 from .frontend import AnalysisBroken, VERIF
 
-EVID = os.path.join(VERIF, 'evidence')
+EVID = os.environ.get('PSA_EVIDENCE_DIR') or os.path.join(VERIF, 'evidence')
 KNOWN = os.path.join(VERIF, 'known_findings.json')
 
 
